@@ -15,7 +15,7 @@ for i in ids:
 m = dict(version=1, setup_cmd='python3 setup_check.py',
   hooks=dict(guard='UNIFEX_VERIF', enable='harness TUs are compiled by clang++-14 with -DUNIFEX_VERIF -I/repo/include (no library build needed)',
     baseline_off_cmd='cmake -G Ninja -S /repo -B /repo/_build -DCMAKE_BUILD_TYPE=RelWithDebInfo -DCMAKE_CXX_FLAGS="-Wno-error -Wno-error=maybe-uninitialized" -DUNIFEX_USE_SYSTEM_GTEST=ON && cmake --build /repo/_build -j16 && ctest --test-dir /repo/_build -j8 --timeout 900',
-    source_commits=['bd98c48'], add_only=True),
+    source_commits=['bd98c48', 'c90d17c'], add_only=True),
   engines=[dict(name='irsym', path='engine/irsym.py', serves_properties=[c['property_id'] for c in checks],
     kind_free_text='own bounded symbolic model checker over clang-14 LLVM IR of the real code; schedules, inputs, fault points are z3 variables')],
   checks=checks, notes='see DESIGN.md; known findings in known_findings.json', not_applicable=na)
